@@ -109,6 +109,21 @@ CHECKS = {
             'the same or an incompatible shape only (numpy broadcasting to a larger shape not modelled); masks checked '
             'by the oracle only.',
             '10 (C08)'),
+    'C13': ('Lean 4 proof: reads on the classification dictionary of the statistics results are the identity (induction '
+            'over any sequence of reads), hence the verdict is stable; the repaired count returns what the pinned one '
+            'returned + differential correspondence under random read sequences + bit-for-bit deep snapshots of every '
+            'result kind around every read-only operation',
+            'reads_are_identity, reads_prefix_identity, verdict_stable (any finite sequence, any order, of bool / len / '
+            'get / contains / counts / view), counts_eq (the repair changes no returned value), clsGet_clsIndex, '
+            'c13_pinned_refuted (the pinned count flips the verdict). For the array-backed kinds (equal, approx-equal, '
+            'Student, chi-square, Bonferroni, Holm, metadata, by-labels, failed) the statement is trivial in a pure model '
+            '(arrays_partial): PARTIAL — it is decided on the real objects by deep snapshots (array bytes, dtypes, shapes, '
+            'dictionary keys in order) before and after each of: bool, oracles, counts, table / plot / full '
+            'representation at every verbosity, Rst.format_result, fingerprint, data(), pickle, deepcopy, repr; and by '
+            'evaluating twice.',
+            'Trusted: Lean kernel + standard axioms; representation / formatting / pickling code is a parameter (view) of '
+            'the model; in-place edits of shared numpy buffers are runtime behaviour the model cannot exhibit.',
+            '10 (C13)'),
     'C17': ('Lean 4 proof: inverted index = direct scan (induction over items, keyword lists and filter chains) + '
             'differential correspondence of the compiled model with Browser on random chains',
             'All items / queries / chains of the model are covered by kernel-checked theorems (index_spec, '
